@@ -99,6 +99,34 @@ pub fn cmd_gen(dir: &str, start: &str, out: &str) -> String {
     describe(&o)
 }
 
+/// `zv docbatch` line: read the files of <dir> with the real reader and write the canonical dump of the `RustDocument`
+/// (the cfg-guarded hook `RustDocument::verif_dump` in zeep-lib) to <out>
+#[cfg(zeep_verif)]
+pub fn cmd_docdump(dir: &str, start: &str, out: &str) -> String {
+    let files = read_dir_files(Path::new(dir));
+    if files.is_empty() {
+        return "no-files".into();
+    }
+    let order: Vec<usize> = (0..files.len()).collect();
+    let ftr = build_files(&files, start, &order);
+    let r = catch_unwind(AssertUnwindSafe(|| match XmlReader::read_xml(&ftr) {
+        Ok(d) => Ok(d.verif_dump()),
+        Err(e) => Err(class_of(&format!("{e:?}"))),
+    }));
+    match r {
+        Ok(Ok(text)) => {
+            let _ = fs::write(out, text);
+            "ok".into()
+        }
+        Ok(Err(c)) => format!("read-err {c}"),
+        Err(_) => "panic".into(),
+    }
+}
+#[cfg(not(zeep_verif))]
+pub fn cmd_docdump(_dir: &str, _start: &str, _out: &str) -> String {
+    "hook-disabled".into()
+}
+
 /// `zv dump <dir> <out>`: tree dump of every file in <dir>
 pub fn cmd_dump(dir: &str, out: &str) -> String {
     let files = read_dir_files(Path::new(dir));
